@@ -159,11 +159,11 @@ theorem callClosure_ok {N : NumOps} (ρ : ExtOracle N) (hρ : OracleFlat ρ)
 /-- the initial dead set: the watched globals -/
 def watD (cx : Cx) : List DName := cx.W.map DName.wat
 
-theorem EnvRel.init {N : NumOps} {β : Inj N} : EnvRel cx β (watD cx) [] [] :=
+theorem EnvRel.init {N : NumOps} {β : Inj N} (hW0 : cx.top) : EnvRel cx β (watD cx) [] [] :=
   ⟨fun _ _ => by simp only [lookupAssoc, OptRel], fun _ hn => List.mem_map_of_mem hn, fun n hn => by
     obtain ⟨m, hm, e⟩ := List.mem_map.mp hn
     cases e
-    have := cx.subW n hm
+    have := hW0 n hm
     exact ⟨by simp only [lookupAssoc]; exact this.1.symm, by simp only [lookupAssoc]; exact this.2.symm⟩⟩
 
 
@@ -276,11 +276,12 @@ theorem runChunk_eq_wrapCtl {N : NumOps} (ρ : ExtOracle N) (n : Nat) (b : Block
     runChunk ρ n b σ = wrapCtl (execB (callClosure ρ n) ρ n ⟨[], []⟩ b σ) := rfl
 
 theorem runChunk_rel {N : NumOps} (ρ : ExtOracle N) (hρ : OracleFlat ρ) (hCF : ∀ n, cx.CF N ρ n (callClosure ρ n))
-    (n : Nat) {b b' : Block} {D' : List DName} (h : VR cx (watD cx) (.b b) (.b b') D') {β : Inj N} {σ σ' : State N} (hs : SRel (VQ cx) cx β σ σ') :
+    (n : Nat) {b b' : Block} {D' : List DName} (h : VR cx (watD cx) (.b b) (.b b') D') {β : Inj N} {σ σ' : State N} (hs : SRel (VQ cx) cx β σ σ')
+    (hW0 : cx.top := by top_tac) :
     RRel (VQ cx) cx β AVs (runChunk ρ n b σ) (runChunk ρ n b' σ') := by
   unfold runChunk
   exact RRel.retWrap ((fundB h).2 N _ ρ n _ _ _ _ _ ⟨hCF n, callClosure_ok ρ hρ hCF n, hρ⟩ hs
-    ⟨.nil, EnvRel.init⟩)
+    ⟨.nil, EnvRel.init hW0⟩)
 
 theorem observe_rel {N : NumOps} {β : Inj N} {r r' : Res N (List (Val N))} (h : RRel (VQ cx) cx β AVs r r') :
     (cx.upto = true ∧ observe r = .timeout) ∨ (cx.uptoR = true ∧ observe r' = .timeout) ∨ observe r' = observe r := by
@@ -311,19 +312,21 @@ theorem observe_of_soundB {N : NumOps} {D D' : List DName} {b b' : Block} (h : S
 its budget, or (only when `cx.uptoR`) the rewritten program does -/
 theorem runChunk_vr'' {N : NumOps} (ρ : ExtOracle N) (hρ : OracleFlat ρ) (hCF : ∀ n, cx.CF N ρ n (callClosure ρ n))
     (n : Nat) {b b' : Block} {D' : List DName} (h : VR cx (watD cx) (.b b) (.b b') D') {β : Inj N} {σ σ' : State N}
-    (hs : SRel (VQ cx) cx β σ σ') :
+    (hs : SRel (VQ cx) cx β σ σ')
+    (hW0 : cx.top := by top_tac) :
     (cx.upto = true ∧ observe (runChunk ρ n b σ) = .timeout) ∨
       (cx.uptoR = true ∧ observe (runChunk ρ n b' σ') = .timeout) ∨
       observe (runChunk ρ n b' σ') = observe (runChunk ρ n b σ) :=
-  observe_rel (runChunk_rel ρ hρ hCF n h hs)
+  observe_rel (runChunk_rel ρ hρ hCF n h hs hW0)
 
 /-- contexts without `uptoR`: same outcome — or (only when `cx.upto`) the original exhausts its budget -/
 theorem runChunk_vr' {N : NumOps} (ρ : ExtOracle N) (hρ : OracleFlat ρ) (hCF : ∀ n, cx.CF N ρ n (callClosure ρ n))
     (n : Nat) {b b' : Block} {D' : List DName} (h : VR cx (watD cx) (.b b) (.b b') D') {β : Inj N} {σ σ' : State N}
-    (hs : SRel (VQ cx) cx β σ σ') (hur : cx.uptoR = false := by rfl) :
+    (hs : SRel (VQ cx) cx β σ σ') (hur : cx.uptoR = false := by rfl)
+    (hW0 : cx.top := by top_tac) :
     (cx.upto = true ∧ observe (runChunk ρ n b σ) = .timeout) ∨
       observe (runChunk ρ n b' σ') = observe (runChunk ρ n b σ) := by
-  rcases runChunk_vr'' ρ hρ hCF n h hs with h1 | ⟨h2, _⟩ | h3
+  rcases runChunk_vr'' ρ hρ hCF n h hs hW0 with h1 | ⟨h2, _⟩ | h3
   · exact .inl h1
   · rw [hur] at h2; cases h2
   · exact .inr h3
@@ -331,9 +334,10 @@ theorem runChunk_vr' {N : NumOps} (ρ : ExtOracle N) (hρ : OracleFlat ρ) (hCF 
 /-- contexts without `upto`: same outcome — or (only when `cx.uptoR`) the REWRITTEN program exhausts its budget -/
 theorem runChunk_vrR {N : NumOps} (ρ : ExtOracle N) (hρ : OracleFlat ρ) (hCF : ∀ n, cx.CF N ρ n (callClosure ρ n))
     (n : Nat) {b b' : Block} {D' : List DName} (h : VR cx (watD cx) (.b b) (.b b') D') {β : Inj N} {σ σ' : State N}
-    (hs : SRel (VQ cx) cx β σ σ') (hu : cx.upto = false := by rfl) :
+    (hs : SRel (VQ cx) cx β σ σ') (hu : cx.upto = false := by rfl)
+    (hW0 : cx.top := by top_tac) :
     observe (runChunk ρ n b' σ') = .timeout ∨ observe (runChunk ρ n b' σ') = observe (runChunk ρ n b σ) := by
-  rcases runChunk_vr'' ρ hρ hCF n h hs with ⟨h1, _⟩ | ⟨_, h2⟩ | h3
+  rcases runChunk_vr'' ρ hρ hCF n h hs hW0 with ⟨h1, _⟩ | ⟨_, h2⟩ | h3
   · rw [hu] at h1; cases h1
   · exact .inl h2
   · exact .inr h3
@@ -342,9 +346,10 @@ theorem runChunk_vrR {N : NumOps} (ρ : ExtOracle N) (hρ : OracleFlat ρ) (hCF 
 theorem runChunk_vr {N : NumOps} (ρ : ExtOracle N) (hρ : OracleFlat ρ) (n : Nat) {b b' : Block} {D' : List DName}
     (h : VR cx (watD cx) (.b b) (.b b') D') {β : Inj N} {σ σ' : State N} (hs : SRel (VQ cx) cx β σ σ')
     (hu : cx.upto = false := by rfl) (hCF : ∀ n, cx.CF N ρ n (callClosure ρ n) := by intros; trivial)
-    (hur : cx.uptoR = false := by rfl) :
+    (hur : cx.uptoR = false := by rfl)
+    (hW0 : cx.top := by top_tac) :
     observe (runChunk ρ n b' σ') = observe (runChunk ρ n b σ) := by
-  rcases runChunk_vr' ρ hρ hCF n h hs hur with ⟨h1, _⟩ | h2
+  rcases runChunk_vr' ρ hρ hCF n h hs hur hW0 with ⟨h1, _⟩ | h2
   · rw [hu] at h1; cases h1
   · exact h2
 
@@ -354,9 +359,10 @@ theorem runProgram_vr {N : NumOps} (ρ : ExtOracle N) (hρ : OracleFlat ρ) (n :
     (hG : ∀ p ∈ cx.G N, (initState externs : State N).getGlobal p.1 = p.2 := by intro _ h; cases h)
     (hF : ∀ p ∈ cx.F, FnGlobal (initState externs : State N) p.1 p.2 := by intro _ h; cases h)
     (hu : cx.upto = false := by rfl) (hCF : ∀ n, cx.CF N ρ n (callClosure ρ n) := by intros; trivial)
-    (hur : cx.uptoR = false := by rfl) :
+    (hur : cx.uptoR = false := by rfl)
+    (hW0 : cx.top := by top_tac) :
     runProgram ρ n externs b' = runProgram ρ n externs b :=
-  runChunk_vr ρ hρ n h (SRel.init (VQ cx) externs hI hG hF) hu hCF hur
+  runChunk_vr ρ hρ n h (SRel.init (VQ cx) externs hI hG hF) hu hCF hur hW0
 
 /-- up-to-timeout contexts: same outcome unless the original exhausts its budget -/
 theorem runProgram_vr_upto {N : NumOps} (ρ : ExtOracle N) (hρ : OracleFlat ρ) (n : Nat) (externs : List String)
@@ -364,9 +370,10 @@ theorem runProgram_vr_upto {N : NumOps} (ρ : ExtOracle N) (hρ : OracleFlat ρ)
     (hI : cx.I N initRel (initState externs : State N) (initState externs) := by trivial)
     (hG : ∀ p ∈ cx.G N, (initState externs : State N).getGlobal p.1 = p.2 := by intro _ h; cases h)
     (hF : ∀ p ∈ cx.F, FnGlobal (initState externs : State N) p.1 p.2 := by intro _ h; cases h)
-    (hCF : ∀ n, cx.CF N ρ n (callClosure ρ n) := by intros; trivial) (hur : cx.uptoR = false := by rfl) :
+    (hCF : ∀ n, cx.CF N ρ n (callClosure ρ n) := by intros; trivial) (hur : cx.uptoR = false := by rfl)
+    (hW0 : cx.top := by top_tac) :
     runProgram ρ n externs b = .timeout ∨ runProgram ρ n externs b' = runProgram ρ n externs b := by
-  rcases runChunk_vr' ρ hρ hCF n h (SRel.init (VQ cx) externs hI hG hF) hur with ⟨_, h1⟩ | h2
+  rcases runChunk_vr' ρ hρ hCF n h (SRel.init (VQ cx) externs hI hG hF) hur hW0 with ⟨_, h1⟩ | h2
   · exact .inl h1
   · exact .inr h2
 
@@ -376,8 +383,9 @@ theorem runProgram_vr_uptoR {N : NumOps} (ρ : ExtOracle N) (hρ : OracleFlat ρ
     (hI : cx.I N initRel (initState externs : State N) (initState externs) := by trivial)
     (hG : ∀ p ∈ cx.G N, (initState externs : State N).getGlobal p.1 = p.2 := by intro _ h; cases h)
     (hF : ∀ p ∈ cx.F, FnGlobal (initState externs : State N) p.1 p.2 := by intro _ h; cases h)
-    (hCF : ∀ n, cx.CF N ρ n (callClosure ρ n) := by intros; trivial) (hu : cx.upto = false := by rfl) :
+    (hCF : ∀ n, cx.CF N ρ n (callClosure ρ n) := by intros; trivial) (hu : cx.upto = false := by rfl)
+    (hW0 : cx.top := by top_tac) :
     runProgram ρ n externs b' = .timeout ∨ runProgram ρ n externs b' = runProgram ρ n externs b :=
-  runChunk_vrR ρ hρ hCF n h (SRel.init (VQ cx) externs hI hG hF) hu
+  runChunk_vrR ρ hρ hCF n h (SRel.init (VQ cx) externs hI hG hF) hu hW0
 
 end DarkluaModel.Sem.HeapU
